@@ -75,7 +75,9 @@ C_CloseRace(e) == e.op = "RecvCloseRace" => ~e.blocked /\ ~e.ok /\ e.v = 0
 C_NoPanic(e) == e.panic = ""
 \* SendDeadlineRace (a batch of rounds, summarised): n rounds, pending = rounds in which SendTimeout's answer differed from what
 \* the receiver saw ("return true exactly when the value was handed to the channel")
-C_SendDeadline(e) == e.op = "SendDeadlineRace" => e.pending = 0
+\* (fill = calls with a non-positive timeout, made right after such a round, that gave up although "a non-positive timeout means
+\*  wait without limit")
+C_SendDeadline(e) == e.op = "SendDeadlineRace" => e.pending = 0 /\ e.fill = 0
 \* (stalled: the driver's heartbeat showed that the process did not run for a quarter of a second or more during every one of five
 \*  attempts at this scenario - its timing margins mean nothing then, and nothing is concluded from it)
 All(e) == e.stalled \/ (C_SendDeadline(e) /\ C_CloseRace(e) /\ C_RecvRace(e) /\ C_SendRace(e) /\ C_NoPanic(e) /\ C_NeverBlocks(e) /\ C_Queued(e) /\ C_QueuedPending(e) /\ C_Outcome(e) /\ C_SendConserve(e) /\ C_RecvConserve(e) /\ C_Unlimited(e))
